@@ -294,6 +294,12 @@ fn judge(recs: &[HRec], tasks: &[TaskInfo], hb: &[String], hbs: &cadence_dsim::h
     };
     // ---- happens-before (the point of the property) ----
     if let Some(v) = hb.first() {
+        if hbs.atomic_ops == 0 && hbs.lock_edges == 0 && hbs.fences == 0 {
+            // the holder synchronises through something the hooks cannot see (std::sync::Once, an
+            // unhooked lock, ...): the tracker has no edges to reason with. Not a verdict.
+            out.harness_error = Some(format!("the holder's synchronisation is not observable through the hooks (no hooked atomic, fence or lock operation was seen), so the happens-before tracker cannot judge: {v}"));
+            return;
+        }
         out.violate(&["C18"], "holder.data-race", format!("under the orderings written in the source: {v}"));
     }
     if hbs.acquire_joins > 0 {
